@@ -186,7 +186,6 @@ macro_rules! slice_string {
         }
     };
 }
-slice_string!(slice_string_empty, 0, 0, 7);
 // non-empty strings: the result String is built by pushing chars selected through a symbolic index;
 // CBMC's memcpy model needed > 30 GB without reaching a verdict.  The selection arithmetic is the same
 // slyce call as for arrays (decided above); what is string specific - chars() and len in chars - is
